@@ -7,6 +7,7 @@ CONSTANTS
   BaseVals = {}
   CallValues = {}
   Amounts = {}
+  Codes = {}
   MaxDepth = 1000
   MaxTransfers = 1000000
   Deploys = FALSE
